@@ -422,6 +422,28 @@ def d1_15(ctx):
         flat = [t for g in groups for t in g] if isinstance(groups, list) and all(isinstance(g, list) for g in groups) else None
         ctx.check(flat == [f"t{i}" for i in range(5)] and all(0 < len(g) <= 2 for g in groups), key, fn, "five requests with ~170-byte estimated replies on a 500-byte connection: each requested once, in order, at most two per packet",
                   f"grouping of five requests with ~170-byte replies on a 500-byte connection gives {groups!r}")
+    # the first request alone overflows the reply budget of a packet (without needing fragments): it gets its own packet, no
+    # empty packet is built and the requests after it are still sent
+    over = ctx.folder.module_value(lx.module.name, "MULTISERVICE_READ_OVERHEAD")
+    if isinstance(over, int) and over > 0:
+        fnm = lx.methods["_read_build_multi_requests"]
+        edge = 500 - 22 - (over - 1) // 2  # estimated reply = size + 20-byte message + 2 fits 500, but not next to the overhead
+        parsed = {0: _parsed(0, "edge"), 1: _parsed(1, "s1"), 2: _parsed(2, "s2")}
+        edge_hook = lambda call, env, it: (edge if it.ev(call.args[0], env)["plc_tag"] == "edge" else 10) if (call_name(call) or "") == "_tag_return_size" else UNKNOWN  # noqa: E731
+        kind, res = run_function(ctx, lx.module, fnm, {"self": _driver(connection_size=500), fnm.args.args[1].arg: parsed}, call_hook=chain(edge_hook, packet_markers([])), deep=False)
+        key = ckey(lx.key + "._read_build_multi_requests", "witness:first request fills a packet")
+        if kind == "unknown":
+            ctx.undecided(key, fnm, f"_read_build_multi_requests not foldable when the first request fills a packet: {res}")
+        else:
+            groups = [[r.tag for r in m.requests] if isinstance(m, Obj) and m.__dict__.get("kind") == "Multi" else describe(m) for m in res] if kind == "return" and isinstance(res, list) else res
+            ctx.check(groups == [["edge"], ["s1", "s2"]], key, fnm, "a first request that fills a packet goes alone, the following ones share the next packet, no empty packet",
+                      f"with a first request whose estimated reply ({edge} + 22 bytes) fills a 500-byte packet the builder gives {groups!r}; expected [['edge'], ['s1', 's2']]")
+        parsed = {0: _parsed(0, "big"), 1: _parsed(1, "big")}
+        kind, res = run_function(ctx, lx.module, fnm, {"self": _driver(connection_size=500), fnm.args.args[1].arg: parsed}, call_hook=chain(size_hook, packet_markers([])), deep=False)
+        key = ckey(lx.key + "._read_build_multi_requests", "witness:only fragmented requests")
+        if kind != "unknown":
+            got = describe(res) if kind == "return" else res
+            ctx.check(kind == "return" and isinstance(got, list) and [g[0] for g in got] == ["RTF", "RTF"], key, fnm, "only fragmented requests: two fragmented packets, no empty multi-service packet", f"two requests that both need fragments give {kind} {got!r}")
     fn = lx.methods["_read_build_requests"]
     for label, micro, n, want in (("one request", False, 1, "single"), ("several requests", False, 3, "multi"), ("several requests on a Micro800", True, 3, "single"), ("one request on a Micro800", True, 1, "single")):
         parsed = {i: _parsed(i, f"t{i}") for i in range(n)}
